@@ -4,7 +4,7 @@
     WHICH candidates an atom produces (all occurrences / engine matches, each matching at its position)
     is the subject of C01; here it appears as the hypothesis on the candidate list. *)
 From ZV Require Import Lib.Base Lib.GoSearch Lib.RuneCount Model.Lines Model.Ranges
-  Proofs.RuneCountProofs Proofs.LinesMatch Proofs.LinesChunk Proofs.LinesBreakCover Proofs.RangesLineMode Proofs.RangesGather Proofs.RangesOffsets Proofs.RangesFind Proofs.RangesBoundary Generated.RangesConsts.
+  Proofs.RuneCountProofs Proofs.LinesMatch Proofs.LinesChunk Proofs.LinesBreakCover Proofs.RangesLineMode Proofs.RangesGather Proofs.RangesOffsets Proofs.RangesFind Proofs.RangesBoundary Proofs.RangesWord Generated.RangesConsts.
 From ZV Require Lib.Utf8.
 From Coq Require Import Sorting.Sorted Sorting.Permutation.
 
@@ -68,6 +68,44 @@ Print Assumptions C02_substr_no_occurrence.
 Theorem C02_regexp_ranges_are_engine_matches : forall nl ms, ms <> [] -> engine_matches ms -> gather nl ms = ms.
 Proof. exact regexp_matches_kept. Qed.
 Print Assumptions C02_regexp_ranges_are_engine_matches.
+
+(** THE WORD FAST PATH (wordMatchTree.matches: a case-sensitive \bLIT\b is evaluated without the regexp engine, on the bytes
+    of the document).  [word_offsets w data] = the scan loop of the code (Model/Ranges.v: bytes.Index from the resume offset,
+    both ends must be word/non-word transitions, resume BEHIND an accepted occurrence and one byte past the start of a
+    rejected one).  [successive w data pos l] = the regexp engine's FindAllIndex semantics for \bLIT\b: l are the successive
+    leftmost matches, each searched from the end of the previous one; a match at o = LIT occurs at o and both o and
+    o + |LIT| are ASCII word boundaries.  The loop yields exactly that list — in particular DIRECTLY ADJACENT occurrences
+    (x.get.get for \b\.get\b: a literal whose first and last byte are of different classes) are all reported. *)
+Theorem C02_word_fastpath_is_regexp : forall w data l, w <> [] ->
+  (successive w data 0 l <-> l = word_offsets w data).
+Proof. exact word_fastpath_is_regexp. Qed.
+Print Assumptions C02_word_fastpath_is_regexp.
+
+(** ... and gatherMatches reports the word atom's candidates unchanged: the ranges of the query \bLIT\b are exactly the
+    engine's successive matches [o, o + |LIT|), all inside the document (chunk mode: with C02_chunk_mode_ranges) *)
+Theorem C02_word_ranges_are_regexp_matches : forall nl w data, w <> [] -> word_offsets w data <> [] ->
+  gather nl (word_cands false w data) = word_cands false w data /\
+  map c_off (word_cands false w data) = word_offsets w data /\
+  Forall (fun m => c_sz m = length w /\ c_fn m = false /\ c_end m <= length data) (word_cands false w data) /\
+  successive w data 0 (word_offsets w data).
+Proof. exact word_ranges_are_regexp_matches. Qed.
+Print Assumptions C02_word_ranges_are_regexp_matches.
+
+(** ... line mode end to end (model level): the LineFragments cover exactly the bytes of the successive matches minus newlines *)
+Theorem C02_word_line_mode : forall nl data name ctx w, (0 <= ctx)%Z -> w <> [] -> word_offsets w data <> [] ->
+  exists res, fill_matches (newlines_of data) data name ctx (gather nl (word_cands false w data)) = Ok res /\
+    Forall (lm_ok data ctx) res /\
+    (forall p, frag_covered res p <->
+       ((exists o, In o (word_offsets w data) /\ o <= p < o + length w) /\ nth_error data p <> Some 10%N)).
+Proof. exact word_line_mode. Qed.
+Print Assumptions C02_word_line_mode.
+
+(** the resume offset matters: resuming at relEndOffset + 1 after an accepted occurrence (round-3 red-team change, "the
+    byte after an accepted occurrence is on the far side of a word boundary") is NOT the regexp semantics *)
+Theorem C02_word_resume_plus1_refuted : exists w data, w <> [] /\
+  ~ successive w data 0 (word_scan_skip1 w data 0 (S (length data))).
+Proof. exact word_resume_plus1_refuted. Qed.
+Print Assumptions C02_word_resume_plus1_refuted.
 
 (** line mode, FULL: breakMatchesOnNewlines succeeds on in-bounds disjoint candidates; every piece is a non-empty
     newline-free part of its candidate (same class), order and disjointness are kept; and the pieces cover EXACTLY the
@@ -277,3 +315,14 @@ Proof. split; repeat constructor; simpl; lia. Qed.
 
 Example ex_table : make_map 100 [0; 100; 205; 305; 410] = [(200, 205); (400, 410)].
 Proof. reflexivity. Qed.
+
+(* \b\.get\b on "x.get.get": two directly adjacent matches at 1 and 5; \bget\b on "get.get_ get": 0 and 9 ("get_" rejected);
+   \ba a\b on "xa a a": the match at 3 overlaps the rejected occurrence at 1 (fix 260937d); \b-foo\b on "-foo a-foo":
+   only the second (fix d7a2c44: a text start before a non-word byte is no boundary) *)
+Example ex_word_adjacent :
+  word_offsets [46; 103; 101; 116]%N [120; 46; 103; 101; 116; 46; 103; 101; 116]%N = [1; 5] /\
+  word_offsets [103; 101; 116]%N [103; 101; 116; 46; 103; 101; 116; 95; 32; 103; 101; 116]%N = [0; 9] /\
+  word_offsets [97; 32; 97]%N [120; 97; 32; 97; 32; 97]%N = [3] /\
+  word_offsets [45; 102; 111; 111]%N [45; 102; 111; 111; 32; 97; 45; 102; 111; 111]%N = [6] /\
+  word_scan_skip1 [46; 103; 101; 116]%N [120; 46; 103; 101; 116; 46; 103; 101; 116]%N 0 10 = [1].
+Proof. vm_compute. repeat split; reflexivity. Qed.
